@@ -232,6 +232,12 @@ func (e *Env) heapSet(s *State, name, sort, term string) {
 	e.heapGet(s, name, sort) // make sure the initial constant exists (frames compare against it)
 	c := e.ctx.freshConst(name, sort)
 	s.assume(eq(c, term))
+	if strings.HasPrefix(name, "G!buf") {
+		if e.ctx.defs == nil {
+			e.ctx.defs = map[string]string{}
+		}
+		e.ctx.defs[c] = term
+	}
 	e.ownedAxiom(name, c)
 	s.heap[name] = c
 	s.hsort[name] = sort
@@ -358,6 +364,10 @@ func (e *Env) withStructField(v Value, idx int, nv string) Value {
 
 func (e *Env) allocRef(s *State, hint string) string {
 	r := e.ctx.freshConst("new."+hint, "Int")
+	if e.ctx.allocs == nil {
+		e.ctx.allocs = map[string]bool{}
+	}
+	e.ctx.allocs[r] = true
 	s.assume("(> " + r + " " + s.alloc + ")")
 	s.assume("(> " + r + " 0)")
 	s.alloc = r
